@@ -6,7 +6,12 @@ import (
 )
 
 // repoRoot is where the code under check lives (the harness module `replace`s to it as well).
-const repoRoot = "/repo"
+var repoRoot = func() string {
+	if v := os.Getenv("VERIF_REPO"); v != "" {
+		return v
+	}
+	return "/repo"
+}()
 
 func mustRead(rel string) []byte {
 	b, err := os.ReadFile(filepath.Join(repoRoot, rel))
